@@ -128,6 +128,17 @@ pub fn limit_programs() -> Vec<String> {
         let fields: Vec<String> = (0..n).map(|i| format!("let f{} = {}", i, i)).collect();
         v.push(format!("let o = object begin {} end;\nprint(\"~\\n\", o.f{})", fields.join("; "), n - 1));
     }
+    // the largest frames the format can express: 1 parameter + 65534/65535 locals (and one more: refused or not, the same everywhere)
+    for n in [65534usize, 65535, 65536] {
+        let mut s = String::with_capacity(n * 24);
+        s.push_str("print(\"before\\n\");\nfunction wide(p) -> begin\n");
+        for i in 0..n { s.push_str(&format!("let v{} = {};\n", i, i % 10)); }
+        s.push_str(&format!("p + v0 + v{}\nend;\nprint(\"~\\n\", wide(7));\nprint(\"after\\n\")", n - 1));
+        // the same frame, with the locals in a branch that is not taken
+        let guarded = s.replacen("begin\n", "if false then begin\n", 1).replacen("\nend;\n", "\nend else 7;\n", 1);
+        v.push(s);
+        v.push(guarded);
+    }
     v.push("function first(a, a) -> a;\nprint(\"~\\n\", first(1, 2))".to_string());
     v.push("let o = object begin function m(this) -> this end;\nprint(\"~\\n\", o.m(1))".to_string());
     v.push("let o = object begin let a = 1; let a = 2 end;\nprint(\"~\\n\", o)".to_string());
